@@ -3,6 +3,7 @@ import vlib
 from props import common, mix
 
 THM = "NextestModel.Thm.C03"
+THM_EXTRA = ["NextestModel.Thm.C03Unit"]
 GEN = []
 TRUSTED = ["model: Model/Classify (create_execution_result, AbortStatus::extract on Unix, describe)",
            "std's decoding of raw wait statuses (ExitStatusExt) is compared exhaustively with the model's"]
